@@ -88,12 +88,32 @@ func backendFuncs(c *Ctx, impls []backendImpl) []*ssa.Function {
 
 func runERRPROPBackend(c *Ctx) {
 	impls := backendImpls(c, backendPkgs...)
+	var stores []*ssa.Function
+	for _, b := range impls {
+		stores = append(stores, b.store)
+	}
+	inStore := c.Facts.Reach(stores...)
 	for _, fn := range backendFuncs(c, impls) {
-		errPropFunc(c, fn)
+		errPropFunc(c, fn, inStore[fn])
 	}
 }
 
-func errPropFunc(c *Ctx, fn *ssa.Function) {
+// storeProbe: a call in Store whose error may be classified to decide whether
+// to write at all (the exists probe); every other call of a Store is (part of)
+// the write, and no classification of its error licenses a nil return.
+func storeProbe(call *ssa.Call) bool {
+	switch staticID(call) {
+	case "os.Stat", "os.Lstat", "os.Open", "os.Readlink":
+		return true
+	}
+	if call.Call.IsInvoke() {
+		n := call.Call.Method.Name()
+		return strings.HasPrefix(n, "Head") || strings.HasPrefix(n, "Get") || n == "Load"
+	}
+	return false
+}
+
+func errPropFunc(c *Ctx, fn *ssa.Function, inStore bool) {
 	P := c.P
 	hasErr := resultHasError(fn.Signature)
 	for _, b := range fn.Blocks {
@@ -139,7 +159,8 @@ func errPropFunc(c *Ctx, fn *ssa.Function) {
 						}
 					}
 				}
-				res := errDropCheck(fn, x)
+				strict := inStore && !storeProbe(x)
+				res := errDropCheckMode(fn, x, strict)
 				switch {
 				case res.overflow:
 					c.Undecided(fn, P.InstrPos(x), "error of "+name, "path exploration exceeded its bound")
@@ -154,8 +175,11 @@ func errPropFunc(c *Ctx, fn *ssa.Function) {
 					for _, r := range res.bad {
 						wit = append(wit, fmt.Sprintf("return at %s reachable with the error non-nil (%s)", P.InstrPos(r), res.witness[r]))
 					}
-					c.Violation(fn, P.InstrPos(x), "error of "+name+" dropped",
-						fmt.Sprintf("when %s fails, %s can still return a nil error: the backend error is not returned to the caller", name, ir.FuncName(fn)), wit...)
+					msg := fmt.Sprintf("when %s fails, %s can still return a nil error: the backend error is not returned to the caller", name, ir.FuncName(fn))
+					if strict && len(errDropCheckMode(fn, x, false).bad) == 0 {
+						msg += " (the error is classified by errors.Is/As, os.IsX or a comparison and then dropped: for the write of a Store no kind of failure — cancelled, timed out, … — means the node is stored)"
+					}
+					c.Violation(fn, P.InstrPos(x), "error of "+name+" dropped", msg, wit...)
 				}
 			}
 		}
